@@ -13,7 +13,7 @@ func verifIntVal(n int) Value { return IntVal(n) }
 // C26: + and - on two integer-represented values: exact when the exact result fits in int64,
 // otherwise the result must be the decimal result, not a wrapped integer.
 //
-//symgo:harness prop=C26 tier=quick arith=int bounds=all_int64_pairs;op_in_{+,-} outside=none
+//symgo:harness prop=C26 tier=quick arith=int qtimeout=5000 timeout=120 havoc=util/dnum.Add havoc=util/dnum.Sub havoc=util/dnum.Mul havoc=util/dnum.Div havoc=util/dnum.FromInt havoc=(util/dnum.Dnum).Neg bounds=all_int64_pairs;op_in_{+,-} outside=none
 func VerifC26AddSub() {
 	a := rt.IntRange("a", math.MinInt64, math.MaxInt64)
 	b := rt.IntRange("b", math.MinInt64, math.MaxInt64)
@@ -46,7 +46,7 @@ func VerifC26AddSub() {
 
 // C26: unary minus and +1/-1.
 //
-//symgo:harness prop=C26 tier=quick arith=int bounds=all_int64
+//symgo:harness prop=C26 tier=quick arith=int qtimeout=5000 timeout=120 havoc=util/dnum.Add havoc=util/dnum.Sub havoc=util/dnum.Mul havoc=util/dnum.Div havoc=util/dnum.FromInt havoc=(util/dnum.Dnum).Neg bounds=all_int64
 func VerifC26Unary() {
 	a := rt.IntRange("a", math.MinInt64, math.MaxInt64)
 	x := verifIntVal(a)
@@ -70,4 +70,73 @@ func VerifC26Unary() {
 		}
 	}
 	rt.Reach("computed")
+}
+
+// C26: * on two integer-represented values. The solver cannot decide full-width symbolic
+// multiplication, so one operand ranges over all int64 and the other over a stated set of
+// magnitudes (every power of two and its neighbours, small numbers, int64 extremes).
+//
+//symgo:harness prop=C26 tier=quick arith=int qtimeout=20000 timeout=200 ttimeout=1500 havoc=util/dnum.Add havoc=util/dnum.Sub havoc=util/dnum.Mul havoc=util/dnum.Div havoc=util/dnum.FromInt havoc=(util/dnum.Dnum).Neg shards=8 tshards=16 bounds=a_any_int64;b_in_{0,±1,±2,±3,±7,±10,±2^k,±(2^k±1),min,max} outside=arbitrary_pairs
+func VerifC26Mul() {
+	a := rt.IntRange("a", math.MinInt64, math.MaxInt64)
+	k := rt.Pick("k", 64)
+	if !rt.Thorough() {
+		// quick tier: a spread of shift amounts (thorough: all 64)
+		ks := []int{0, 1, 31, 32, 62, 63}
+		if k >= len(ks) {
+			rt.Assume(false)
+		}
+		k = ks[k]
+	}
+	var b int
+	switch v := rt.Pick("variant", 8); v {
+	case 0:
+		b = 1 << k
+	case 1:
+		b = -(1 << k)
+	case 2:
+		b = 1<<k - 1
+	case 3:
+		b = 1<<k + 1
+	case 4:
+		b = -(1<<k - 1)
+	case 5:
+		b = -(1<<k + 1)
+	case 6:
+		b = []int{0, 3, 7, 10, 1000, 1000000007}[k%6]
+	case 7:
+		b = []int{math.MinInt64, math.MaxInt64, -3, -10, -7, 12345}[k%6]
+	}
+	swap := rt.Bool("swap")
+	x, y := verifIntVal(a), verifIntVal(b)
+	var r Value
+	if swap {
+		r = OpMul(y, x)
+	} else {
+		r = OpMul(x, y)
+	}
+	rt.Reach("computed")
+	ri, isInt := SuIntToInt(r)
+	if rt.MulFits(int64(a), int64(b)) {
+		rt.Assert("mul/exact-when-fits", isInt && ri == a*b)
+	} else {
+		rt.Assert("mul/no-wrap", !isInt)
+	}
+}
+
+// C26: / on two integer-represented values: an exact integer quotient is returned as that
+// integer when it fits; MinInt64 / -1 must not wrap.
+//
+//symgo:harness prop=C26 tier=quick arith=int qtimeout=5000 timeout=120 havoc=util/dnum.Add havoc=util/dnum.Sub havoc=util/dnum.Mul havoc=util/dnum.Div havoc=util/dnum.FromInt havoc=(util/dnum.Dnum).Neg bounds=a_any_int64;b_in_{±1,±2,±3,±10,±2^31,min,max}
+func VerifC26Div() {
+	a := rt.IntRange("a", math.MinInt64, math.MaxInt64)
+	b := []int{1, -1, 2, -2, 3, -3, 10, -10, 1 << 31, -(1 << 31), math.MinInt64, math.MaxInt64}[rt.Pick("b", 12)]
+	r := OpDiv(verifIntVal(a), verifIntVal(b))
+	rt.Reach("computed")
+	ri, isInt := SuIntToInt(r)
+	if a == math.MinInt64 && b == -1 {
+		rt.Assert("div/no-wrap", !isInt)
+	} else if a%b == 0 {
+		rt.Assert("div/exact-when-divisible", isInt && ri == a/b)
+	}
 }
